@@ -1,5 +1,5 @@
 // ---- prelude (unit dm_metrics): E12 adapter wrappers (assumed; each body is exactly the std call, each contract restates the rustdoc) ----
-// used through the extractor option `wrap=&chunks,max,enumerate,all,filter_map`: `RECV.m(ARGS)` -> `vx_m(RECV, ARGS)`
+// used through the extractor option `wrap=&chunks,max,min,enumerate,all,filter_map`: `RECV.m(ARGS)` -> `vx_m(RECV, ARGS)`
 // needs at crate top:  use vstd::std_specs::iter::IteratorSpec;
 
 /// number of chunks of length n in a slice of length len: ceil(len / n)
@@ -48,6 +48,29 @@ fn vx_max<'a, T: Ord + 'a, I: Iterator<Item = &'a T>>(it: I) -> (r: Option<&'a T
         it.obeys_prophetic_iter_laws() && <T as vstd::std_specs::cmp::OrdSpec>::obeys_cmp_spec() ==> is_last_max(it.remaining(), r),
 { it.max() }
 
+/// position i holds a minimum of s and every earlier item is greater ("the first element" among the equally minimum ones)
+spec fn is_first_min_at<T: Ord>(s: Seq<&T>, i: int) -> bool {
+    &&& 0 <= i < s.len()
+    &&& forall|j: int| 0 <= j < s.len() ==> !(<T as vstd::std_specs::cmp::OrdSpec>::cmp_spec(#[trigger] s[j], s[i]) is Less)
+    &&& forall|j: int| 0 <= j < i ==> <T as vstd::std_specs::cmp::OrdSpec>::cmp_spec(#[trigger] s[j], s[i]) is Greater
+}
+
+/// rustdoc Iterator::min, over the item sequence s
+spec fn is_first_min<T: Ord>(s: Seq<&T>, r: Option<&T>) -> bool {
+    if s.len() == 0 { r is None } else { r is Some && exists|i: int| #[trigger] is_first_min_at(s, i) && r->0 == s[i] }
+}
+
+// rustdoc Iterator::min: "Returns the minimum element of an iterator. If several elements are equally minimum, the first element
+// is returned. If the iterator is empty, None is returned."
+// NOT called by the code under verification (which uses `max`); it is here so that a change of `max()` into `min()` in
+// /repo is decided (and refuted) by Verus instead of being refused as an unsupported std call.  Same shape as vx_max.
+#[verifier::external_body]
+fn vx_min<'a, T: Ord + 'a, I: Iterator<Item = &'a T>>(it: I) -> (r: Option<&'a T>)
+    ensures
+        it.obeys_prophetic_iter_laws() ==> it.will_return_none(),
+        it.obeys_prophetic_iter_laws() && <T as vstd::std_specs::cmp::OrdSpec>::obeys_cmp_spec() ==> is_first_min(it.remaining(), r),
+{ it.min() }
+
 // rustdoc Iterator::all: "Tests if every element of the iterator matches a predicate. all() takes a closure that returns true or
 // false. It applies this closure to each element of the iterator, and if they all return true, then so does all(). If any of
 // them return false, it returns false. all() is short-circuiting; in other words, it will stop processing as soon as it finds a
@@ -64,3 +87,59 @@ fn vx_all<I: Iterator, F: FnMut(I::Item) -> bool>(it: I, f: F) -> (r: bool)
             && forall|i: int| #![trigger it.remaining()[i]] 0 <= i < it.remaining().len() ==> f.ensures((it.remaining()[i],), true),
         it.obeys_prophetic_iter_laws() && !r ==> exists|i: int| #![trigger it.remaining()[i]] 0 <= i < it.remaining().len() && f.ensures((it.remaining()[i],), false),
 { let mut it = it; it.all(f) }
+
+// rustdoc Iterator::enumerate: "Creates an iterator which gives the current iteration count as well as the next value.
+// The iterator returned yields pairs (i, val), where i is the current index of iteration and val is the value returned by
+// the iterator."  (An item sequence is a Seq of exec values taken from memory, hence shorter than usize::MAX: no overflow.)
+// Superset of the contract of `vx_enumerate` in prelude/iter_wrappers.rs (which this unit does not include): `Enumerate::next`
+// calls the inner `next` exactly once and returns None exactly when the inner iterator does, so termination of `next`
+// (`decrease()`) and reaching None (`will_return_none()`) carry over.
+#[verifier::external_body]
+fn vx_enumerate<I: Iterator>(it: I) -> (r: impl Iterator<Item = (usize, I::Item)>)
+    ensures
+        r.obeys_prophetic_iter_laws() == it.obeys_prophetic_iter_laws(),
+        r.decrease() is Some == it.decrease() is Some,
+        r.will_return_none() == it.will_return_none(),
+        r.remaining().len() == it.remaining().len(),
+        forall|i: int| 0 <= i < it.remaining().len() ==> #[trigger] r.remaining()[i] == (i as usize, it.remaining()[i]),
+{ it.enumerate() }
+
+/// the values of the `Some` items of outs, in order
+spec fn somes<B>(outs: Seq<Option<B>>) -> Seq<B>
+    decreases outs.len(),
+{
+    if outs.len() == 0 { Seq::empty() } else {
+        let s = somes(outs.drop_last());
+        if outs.last() is Some { s.push(outs.last()->0) } else { s }
+    }
+}
+
+/// `outs` are the closure results on a prefix of the source items `src` (all of them once the adapter has returned None, cf.
+/// vstd's model of `Filter`: the closure is exec code that vstd does not know to terminate); `rem` are the `Some` values
+spec fn filter_map_post<A, B, F: FnMut(A) -> Option<B>>(src: Seq<A>, f: F, outs: Seq<Option<B>>, rem: Seq<B>) -> bool {
+    &&& outs.len() <= src.len()
+    &&& forall|j: int| 0 <= j < outs.len() ==> f.ensures((src[j],), #[trigger] outs[j])
+    &&& rem == somes(outs)
+}
+
+// rustdoc Iterator::filter_map: "Creates an iterator that both filters and maps. The returned iterator yields only the values
+// for which the supplied closure returns Some(value)."  Stated like vstd's contract of `Iterator::filter` (same preconditions;
+// the item sequence is the filtered image of a prefix of the source, the whole source once None has been returned).
+#[verifier::external_body]
+fn vx_filter_map<B, I: Iterator, F: FnMut(I::Item) -> Option<B>>(it: I, f: F) -> (r: impl Iterator<Item = B>)
+    requires
+        it.obeys_prophetic_iter_laws(),
+        it.decrease() is Some,
+        forall|k: int| 0 <= k < it.remaining().len() ==> #[trigger] f.requires((it.remaining()[k],)),
+    ensures
+        r.obeys_prophetic_iter_laws(),
+        r.decrease() is Some,
+        exists|outs: Seq<Option<B>>| #[trigger] filter_map_post(it.remaining(), f, outs, r.remaining())
+            && (r.will_return_none() ==> it.will_return_none() && outs.len() == it.remaining().len()),
+{ it.filter_map(f) }
+
+// rustdoc bool::then_some: "Returns Some(t) if the bool is true, or None otherwise."
+pub assume_specification<T> [bool::then_some::<T>] (b: bool, t: T) -> (r: Option<T>)
+    ensures
+        b ==> r == Some(t),
+        !b ==> r is None;
